@@ -74,7 +74,7 @@ fn gen(a: &Args) {
     let n = if thorough { 40_000 } else { 4_000 };
     for i in 0..n {
         let s = if i < 2000 { i + 1 } else { r.range(1, 1 << 31) };
-        for op in ["new", "newtree", "ds", "rec", "sel"] {
+        for op in ["new", "newtree", "ds", "dsn", "rec", "sel", "seln"] {
             o.op(&format!("{} {}", op, s));
         }
     }
@@ -104,6 +104,49 @@ fn step(_: &mut (), ws: &[&str]) -> String {
             let mh = KmerMinHash::new(1, 21, HashFunctions::Murmur64Dna, 42, false, 0);
             match mh.downsample_scaled(n(1)) {
                 Ok(d) => d.scaled().to_string(),
+                Err(e) => format!("err {:?}", e),
+            }
+        }
+        "dsn" => {
+            // created at 1, holding one hash far below every ceiling, downsampled to s
+            let mut mh = KmerMinHash::new(1, 21, HashFunctions::Murmur64Dna, 42, false, 0);
+            mh.add_hash(7);
+            let mut t = KmerMinHashBTree::new(1, 21, HashFunctions::Murmur64Dna, 42, false, 0);
+            t.add_hash_with_abundance(7, 1);
+            match (mh.downsample_scaled(n(1)), t.downsample_scaled(n(1))) {
+                (Ok(d), Ok(dt)) if d.scaled() == dt.scaled() => d.scaled().to_string(),
+                (Ok(d), Ok(dt)) => format!("vec {} tree {}", d.scaled(), dt.scaled()),
+                (a, b) => format!("err {:?} {:?}", a.err(), b.err()),
+            }
+        }
+        "seln" => {
+            // a signature with two non-empty sketches (created at 1 and at s), selected at s:
+            // every delivered sketch reports s
+            let mut a = KmerMinHash::new(1, 21, HashFunctions::Murmur64Dna, 42, false, 0);
+            a.add_hash(7);
+            let mut b = KmerMinHash::new(n(1), 21, HashFunctions::Murmur64Dna, 42, false, 0);
+            b.add_hash(7);
+            let mut sig = Signature::default();
+            sig.push(Sketch::MinHash(a));
+            sig.push(Sketch::MinHash(b));
+            let mut sel = Selection::default();
+            sel.set_scaled(n(1) as u32);
+            match sig.select(&sel) {
+                Ok(sig) => {
+                    let v: Vec<u64> = sig
+                        .sketches()
+                        .iter()
+                        .map(|s| match s {
+                            Sketch::MinHash(mh) => mh.scaled(),
+                            _ => 0,
+                        })
+                        .collect();
+                    if v.len() == 2 && v[0] == v[1] {
+                        v[0].to_string()
+                    } else {
+                        format!("sketches {:?}", v)
+                    }
+                }
                 Err(e) => format!("err {:?}", e),
             }
         }
